@@ -50,6 +50,22 @@ func (m *collection) NotifyMerger(kind string, synchronous bool) error {
 	return nil
 }
 
+// notifyMergerNoWait is an asynchronous NotifyMerger() for callers
+// that hold m.m: it gives up instead of blocking when the merger's
+// ping queue is full.  The merger needs m.m to get back to draining
+// that queue, so blocking here would deadlock; and with a full queue
+// the merger is about to be woken up by an earlier ping anyway.
+func (m *collection) notifyMergerNoWait(kind string) {
+	atomic.AddUint64(&m.stats.TotNotifyMergerBeg, 1)
+
+	select {
+	case m.pingMergerCh <- ping{kind: kind}:
+	default:
+	}
+
+	atomic.AddUint64(&m.stats.TotNotifyMergerEnd, 1)
+}
+
 // ------------------------------------------------------
 
 // runMerger() implements the background merger task.
